@@ -69,9 +69,6 @@ def family_fixed(tier, seed, n=None):
             size = rnd.choice([0, 1, 2, 3, 3])
             if kind in ("index",):
                 size = 3
-            if kind in ("sum", "member") and size == 0:
-                # quarantine of known finding C02-field-free-statement-dropped (witnesses L/fixed/witness/empty_*)
-                size = 1
             fields = [fld("a", 2, False), fld("k", 2, False, rand=False, init=rnd.randrange(4)),
                       list_field("l", 2, rnd.random() < 0.2 and kind not in ("sum",), init=[0] * size, cap=5),
                       list_field("nl", 2, False, rand=False, init=[1, 2], cap=5)]
@@ -92,8 +89,9 @@ def family_fixed(tier, seed, n=None):
                     size += 1
                 elif ed == "l_clear+":
                     ops.append({"op": "list", "kind": "l_clear", "p": "o1.l"})
-                    size = rnd.choice([1, 2])
-                    ops.append({"op": "list", "kind": "l_extend", "p": "o1.l", "vs": [bits(rnd.randrange(4), 2) for _ in range(size)]})
+                    size = rnd.choice([0, 1, 2]) if kind != "index" else 2
+                    if size:
+                        ops.append({"op": "list", "kind": "l_extend", "p": "o1.l", "vs": [bits(rnd.randrange(4), 2) for _ in range(size)]})
                 elif ed == "l_assign":
                     size = rnd.choice([1, 2, 3])
                     ops.append({"op": "list", "kind": "l_assign", "p": "o1.l", "vs": [bits(rnd.randrange(4), 2) for _ in range(size)]})
@@ -114,8 +112,8 @@ def family_fixed(tier, seed, n=None):
 
 
 def witness_empty_list():
-    """known finding C02-field-free-statement-dropped: over an EMPTY list `l.sum >= 2` and `a in l` reduce to constant
-    false statements that mention no field; they are dropped and the unsatisfiable call returns normally"""
+    """over an EMPTY list `l.sum >= 2` and `a in l` are constant false: the call must fail
+    (former known finding C02-field-free-statement-dropped, repaired: see known_findings.json `fixed`)"""
     out = []
     for nm, body in (("empty_sum", [E(B("ge", {"k": "sum", "l": "l"}, lit(2)))]),
                      ("empty_member", [E({"k": "in", "e": F("a"), "items": [{"k": "l", "p": "l"}], "neg": False})])):
